@@ -19,6 +19,7 @@ from asimap import __version__
 from .auth import PWUser, authenticate
 from .constants import SPECIAL_USE_ATTR_VALUES
 from .exceptions import AuthenticationException, Bad, MailboxInconsistency, No
+from .fetch import quote_string
 from .mbox import Mailbox, NoSuchMailbox
 from .parse import (
     IMAPClientCommand,
@@ -946,7 +947,7 @@ class Authenticated(BaseClientHandler):
             * LIST (\\HasChildren) "/" "projects" ("CHILDINFO" ("SUBSCRIBED"))
         """
         attrs_str = " ".join(sorted(attributes))
-        line = f'* LIST ({attrs_str}) "/" "{mbox_name}"'
+        line = f'* LIST ({attrs_str}) "/" {quote_string(mbox_name)}'
         if child_info:
             criteria = " ".join(f'"{c}"' for c in sorted(child_info))
             line += f' ("CHILDINFO" ({criteria}))'
@@ -989,7 +990,7 @@ class Authenticated(BaseClientHandler):
                 case StatusAtt.UNSEEN:
                     result.append(f"UNSEEN {len(mbox.sequences['unseen'])}")
 
-        return f'* STATUS "{mbox_name}" ({" ".join(result)})\r\n'
+        return f'* STATUS {quote_string(mbox_name)} ({" ".join(result)})\r\n'
 
     ####################################################################
     #
@@ -1116,7 +1117,9 @@ class Authenticated(BaseClientHandler):
 
             if lsub:
                 attrs_str = " ".join(sorted(attributes))
-                msg = f'* LSUB ({attrs_str}) "/" "{mbox_name}"\r\n'
+                msg = (
+                    f'* LSUB ({attrs_str}) "/" {quote_string(mbox_name)}\r\n'
+                )
             else:
                 msg = self._fmt_list_response(mbox_name, attributes, child_info)
             await self.client.push(msg)
@@ -1180,7 +1183,8 @@ class Authenticated(BaseClientHandler):
                         result.append(f"UNSEEN {len(mbox.sequences['unseen'])}")
 
         await self.client.push(
-            f'* STATUS "{cmd.mailbox_name}" ({" ".join(result)})\r\n'
+            f"* STATUS {quote_string(cmd.mailbox_name)} "
+            f'({" ".join(result)})\r\n'
         )
 
     ##################################################################
